@@ -279,18 +279,17 @@ def site_args(kind):
             node = ast.parse(src).body[0]
             v = N.extract_visitor()
             v.top = top
+            asked, given = [], []
 
             class F(object):
                 scope = None
 
                 def add_name(self, n):
-                    pass
+                    given.append(n)
             v.flow = F()
-            del top.calls[:]
+            v.alias_loc = lambda node_, alias, name, start: asked.append((node_, alias, name, start)) or ('declared', len(asked))
             v.visit(node)
-            out.append((src, top.calls[-1]))
-            core.prove('import-site-passes-the-statement-end[%s]' % src, top.end_lines[-1] == node.end_lineno, kind='pre',
-                       clause='the caller tells find_id_loc the last line of the statement')
+            out.append((src, node, asked, given))
         return out
     if kind == 'def-name':
         node = ast.parse('def modname(): pass').body[0]
@@ -317,6 +316,85 @@ if bad:
     print('REPRODUCED: %%r: binding %%r reported at %%r where the text is %%r' %% ((src,) + bad[0])); sys.exit(1)
 print('not reproduced')
 '''
+
+
+def pipeline_ok(src, name):
+    """the real extraction on a concrete program: every binding of `name` is reported where the text is `name`, and an `as name` binding
+    at the LAST occurrence of the word in its alias"""
+    import supp.scope as S
+    from supp.nast import extract
+    from supp.util import Source
+    sc = S.SourceScope(Source(src))
+    extract(sc.source.tree, sc.flow)
+    lines = src.split('\n')
+    found = [n.declared_at for _, n in sc.all_names if n.name == name]
+    if not found:
+        return False
+    want = []
+    for node in ast.walk(sc.source.tree):
+        if isinstance(node, ast.alias) and (node.asname or node.name.partition('.')[0]) == name:
+            want.append((node.end_lineno, node.end_col_offset - len(name)) if node.asname else (node.lineno, node.col_offset))
+    return sorted(found) == sorted(want) and all(0 < l <= len(lines) and lines[l - 1][c:c + len(name)] == name for l, c in found)
+
+
+@harness('C11', 'supp.nast.extract_visitor.alias_loc')
+def alias_loc_contract(run):
+    """alias_loc(statement, alias, bound name, start): where the parser records the extent of the alias, the position of its LAST token when the
+    alias has an `as` clause (end of the alias minus the length of the name) and of its FIRST token otherwise - never an earlier occurrence of
+    the same word in the statement; without recorded extents, what find_id_loc finds from the statement start up to the statement end"""
+    run.trust('CPython parser (3.10+): an alias node spans from the first character of its dotted name to the last character of its `as` name; '
+              'columns are UTF-8 byte offsets (the property quantifies over ASCII-only lines)')
+    f = loader.load('supp.nast', 'extract_visitor.alias_loc')
+    holder = {}
+
+    class Top(object):
+        def find_id_loc(self, id, start, shift=0, delimeters=True, end_line=None):
+            holder['asked'] = (id, start, shift, delimeters, end_line)
+            return ('found',)
+
+    class V(object):
+        top = Top()
+
+    def body():
+        case = core.choice(4)
+        l, c, el, ec, n = [core.fresh(k, Int) for k in ('lineno', 'col', 'end_lineno', 'end_col', 'len')]
+        assume(z3.And(l >= 1, c >= 0, el >= l, ec >= 0, n >= 1))
+        name = SStr.fresh('name') if hasattr(SStr, 'fresh') else None
+        holder.clear()
+        holder.update(case=case, l=l, c=c, el=el, ec=ec)
+
+        class Name(str):
+            pass
+        nm = 'bound_name'
+        a = ast.alias(name='x.y', asname=nm if case in (0, 2) else None)
+        if case in (0, 1):
+            a.lineno, a.col_offset, a.end_lineno, a.end_col_offset = SInt(l), SInt(c), SInt(el), SInt(ec)
+        else:
+            for k in ('lineno', 'col_offset', 'end_lineno', 'end_col_offset'):
+                a.__dict__.pop(k, None)
+        node = ast.Import(names=[a])
+        node.lineno, node.col_offset, node.end_lineno = 3, 4, 9
+        return f(V(), node, a, nm if case in (0, 2) else 'x', (3, 4))
+
+    def on_path(p, out):
+        case = holder['case']
+        run.case = ('as-name', 'plain', 'as-name-no-extents', 'plain-no-extents')[case]
+        if out[0] != 'ok':
+            prove('no-exception', False, clause='alias_loc raises nothing [%r]' % (out[1],), path=p)
+            return
+        r = out[1]
+        if case == 0:
+            prove('as-name-is-the-last-token-of-the-alias', z3.And(lift(r[0]) == holder['el'], lift(r[1]) == holder['ec'] - len('bound_name')),
+                  clause='(end line, end column - len(name)) of the alias', path=p)
+        elif case == 1:
+            prove('plain-name-is-the-first-token-of-the-alias', z3.And(lift(r[0]) == holder['l'], lift(r[1]) == holder['c']),
+                  clause='(line, column) of the alias', path=p)
+        else:
+            want = ('bound_name' if case == 2 else 'x', (3, 4), 0, True, 9)
+            prove('without-extents-searches-the-statement', r == ('found',) and holder.get('asked') == want,
+                  clause='find_id_loc(name, statement start, end_line=statement end) [%r]' % (holder.get('asked'),), path=p)
+    core.explore(body, on_path)
+    run.case = None
 
 
 @harness('C11', 'find_id_loc call sites (visit_Import, visit_ImportFrom, FuncScope.__init__, ClassScope.__init__)')
@@ -373,7 +451,35 @@ def find_id_loc_call_sites(run):
 
     def go(path):
         d1, d2 = S.IMPORT_DELIMETERS, S.IMPORT_END_DELIMETERS
+        # imports: the visitors ask alias_loc (contract below) for the position of the bound name of each alias and bind the name there
+        for src, node, asked, given in site_args('import-alias'):
+            ok = (len(asked) == len(node.names) == len(given) and all(
+                q[0] is node and q[1] is a and q[2] == (a.asname or a.name.partition('.')[0] if isinstance(node, ast.Import) else a.asname or a.name)
+                and q[3] == (node.lineno, node.col_offset) and g.declared_at == ('declared', k + 1) and g.name == q[2]
+                for k, (a, q, g) in enumerate(zip(node.names, asked, given))))
+            prove('import-alias-position-comes-from-alias_loc[%s]' % src, ok, kind='pre',
+                  clause='each alias is bound at alias_loc(statement, alias, bound name, statement start)', path=path)
+        before, after = CONTEXTS['import-alias']
+        for b in before:
+            for a in after:
+                for asname in (False, True):
+                    ex = example('import-alias', 'import x', b, a)
+                    if ex is None:
+                        continue
+                    if asname:
+                        ex = ex.replace(NAME, 'modname.modname as' + (b if b in BLANK else ' ') + NAME, 1) if ex.startswith('import') else ex.replace(NAME, NAME + ' as' + (b if b in BLANK else ' ') + NAME, 1)
+                    try:
+                        tree = ast.parse(ex)
+                    except SyntaxError:
+                        continue
+                    core.RUN.concretise = (lambda ex: lambda model, ob: {
+                        'input': {'source': ex}, 'script': CTX_REPLAY % {'repo': core.REPO, 'src': ex, 'name': NAME}})(ex)
+                    prove('import-alias%s-found-when-preceded-by-%r-followed-by-%r' % ('-as' if asname else '', b, a), pipeline_ok(ex, NAME), kind='pre',
+                          clause='the text at the position of the binding is the bound name, after the last earlier occurrence of the word, in %r' % ex, path=path)
+        core.RUN.concretise = None
         for kind, (before, after) in CONTEXTS.items():
+            if kind == 'import-alias':
+                continue
             for src, (ident, start, shift, delim) in site_args(kind):
                 lead = ident[:len(ident) - len(NAME)] if ident.endswith(NAME) else None
                 prove('%s-searches-for-the-bound-name[%s]' % (kind, src), lead is not None and shift == len(lead),
